@@ -235,12 +235,22 @@ def build_payload(ident, target, flavour, seed):
     tail = pieces(flavour, rng, rng.choice([1, 2, 3, 8, 20]))
     if rng.random() < 0.15:        # no padding at all: flavoured text throughout
         tail = tail + pieces(flavour, rng, room)
-    while sum(esc_len(c) for c in head) + sum(esc_len(c) for c in tail) > room:
-        if head:
-            head.pop()
-        else:
-            tail.pop(0)
-    pad = room - sum(esc_len(c) for c in head) - sum(esc_len(c) for c in tail)
+    # trim to fit (head from its end, then tail from its start); linear time
+    used = 0
+    keep_head = []
+    for c in head:
+        if used + esc_len(c) > room:
+            break
+        keep_head.append(c)
+        used += esc_len(c)
+    keep_tail = []
+    for c in reversed(tail):
+        if used + esc_len(c) > room:
+            break
+        keep_tail.append(c)
+        used += esc_len(c)
+    head, tail = keep_head, keep_tail[::-1]
+    pad = room - used
     return "".join(head) + "x" * pad + "".join(tail)
 
 
